@@ -115,7 +115,7 @@ def run_alone():
 async def explore(tier, seed):
     rng = random.Random(seed * 3 + 17)
     stats = {"evaluations": 0, "nontrivial": set(), "problems": [], "samples": [], "configs": 0}
-    nconf = 12 if tier == "quick" else 120
+    nconf = fw.scale(12 if tier == "quick" else 120)
     t0 = time.time()
     uid = itertools.count()
     for ci in range(nconf):
